@@ -53,7 +53,7 @@ def lex_line(line, orig=False):
             toks.append(tok("int", v, n) if n <= LIM * 4 else tok("big", v))
         elif k == "hex":
             n = int(v[1:], 16)
-            toks.append(tok("int", v.upper(), n) if n <= LIM * 4 else tok("big", v))
+            toks.append(tok("hexint", v.upper(), n) if n <= LIM * 4 else tok("big", v))
         elif k == "real":
             f = Fraction(v)
             if abs(f.numerator) <= LIM * 4 and f.denominator <= LIM:
